@@ -581,8 +581,16 @@ class LowerToIRVisitor(Visitor.DefaultVisitor):
                 ctx.BasicBlock.AddInstruction(result)
                 return result
         elif left.Type.IsMatrix() and right.Type.IsVector():
-            # M <op> V, needs to get lowered to matrix-vector multiply
-            pass
+            # M * V is the product of the matrix with the column vector V
+            assert be.GetOperation() == op.Operation.MUL
+            mul = LinearIR.BinaryInstruction(
+                LinearIR.OpCode.MATRIX_MUL_MATRIX,
+                ctx.AdaptType(be.GetType()),
+                left,
+                right,
+            )
+            ctx.BasicBlock.AddInstruction(mul)
+            return mul
         elif left.Type.IsMatrix() and right.Type.IsScalar():
             # M <op> S, needs to get lowered to vector-scalar multiply or
             # division
